@@ -112,6 +112,11 @@ StableFrom(keys, left) ==
          IN <<m>> \o StableFrom(keys, left \ {m})
 StablePerm(keys) == StableFrom(keys, 1..Len(keys))
 
+\* the same permutation for keys drawn from 0..2, computed in linear time (used for long key lines):
+\* positions with key 0 in order, then key 1, then key 2
+Positions(keys, k) == SelectSeq([i \in 1..Len(keys) |-> i], LAMBDA i : keys[i] = k)
+StablePerm3(keys) == Positions(keys, 0) \o Positions(keys, 1) \o Positions(keys, 2)
+
 (* ---- bags of cell values (C05 ledger) ---- *)
 CountIn(s, v) == Cardinality({i \in DOMAIN s : s[i] = v})
 SameBag(s, t) == Len(s) = Len(t) /\ \A v \in Range(s) \cup Range(t) : CountIn(s, v) = CountIn(t, v)
